@@ -15,7 +15,8 @@ The model follows the code THAT EXISTS, quirks included:
   and `collect_config()` read the cache, so after the constructor's `check()` later changes are neither
   validated nor saved;
 * `ConfigParser.set` raises `NoSectionError` for a missing section, `add_section` raises
-  `DuplicateSectionError` for an existing one: `_update_config_object` calls `set` only when an rc object
+  `DuplicateSectionError` for an existing one; `_update_config_object` (repaired) adds a section exactly when it
+  is missing.  [pinned tree:] `_update_config_object` called `set` only when an rc object
   was loaded and `add_section` for EVERY option when it was not;
 * a section named `""` or `"DEFAULT"` addresses the parser's defaults, visible in every section.
 
@@ -332,19 +333,25 @@ def parseOpt (item : String) : Except Err (String × String × String) :=
       let q := split1 '.' p.1
       .ok (strip q.1, strip q.2, strip p.2)
 
-/-- the loop of `_update_config_object`; `newobj` = no rc object was loaded -/
-def applyOpts (newobj : Bool) : Rc → List String → Except Err Rc
+/-- `if section != DEFAULTSECT and not has_section(section): add_section(section)` -/
+def Rc.ensureSection (rc : Rc) (sec : String) : Except Err Rc :=
+  if sec = "DEFAULT" || ahas sec rc.sects then .ok rc else rc.addSection sec
+
+/-- the loop of `_update_config_object` (after the repair: a section is added exactly when it is missing,
+whether or not an rc file was loaded; on the pinned tree the loop called `set` alone with a loaded rc object
+and `add_section` unconditionally without one) -/
+def applyOpts : Rc → List String → Except Err Rc
   | rc, [] => .ok rc
   | rc, item :: rest =>
     match parseOpt item with
     | .error e => .error e
     | .ok (s, k, v) =>
-      match (if newobj then rc.addSection s else .ok rc) with
+      match rc.ensureSection s with
       | .error e => .error e
       | .ok rc1 =>
         match rc1.setOpt s k v with
         | .error e => .error e
-        | .ok rc2 => applyOpts newobj rc2 rest
+        | .ok rc2 => applyOpts rc2 rest
 
 /-- `System._update_config_object` -/
 def updateRc (rc : Option Rc) (opts : Option (List String)) : Except Err (Option Rc) :=
@@ -353,8 +360,8 @@ def updateRc (rc : Option Rc) (opts : Option (List String)) : Except Err (Option
   | some [] => .ok rc
   | some os =>
     match rc with
-    | some r => (applyOpts false r os).map some
-    | none => (applyOpts true Rc.empty os).map some
+    | some r => (applyOpts r os).map some
+    | none => (applyOpts Rc.empty os).map some
 
 /-! ## construction of the configs of a `System` -/
 
